@@ -38,6 +38,11 @@ pub fn values() -> Vec<Value> {
     v.extend(al::numbers());
     v.extend(al::s_uni_sample());
     v.extend(al::s_num().into_iter().take(30));
+    // non-empty strings that "look empty": every white-space / format / control character alone, and the
+    // type and magnitude representatives
+    v.extend(al::ws_block_strings().into_iter().skip(1).step_by(2));
+    v.extend(al::type_grid());
+    v.extend(al::magnitude_ladder().into_iter().step_by(5));
     al::dedup(v)
 }
 
